@@ -34,7 +34,8 @@ def gen_cases(rng, tier: str) -> list[dict]:
             cases.append(c)
     for origin, pairs in (("near-special", common.near_special(rng, common.sizes(tier, 200, 2000))),
                           ("compensating-magnitudes", common.compensating_products(rng, common.sizes(tier, 150, 1500))),
-                          ("vanishing-factor", common.vanishing_products(rng, common.sizes(tier, 150, 1500)))):
+                          ("vanishing-factor", common.vanishing_products(rng, common.sizes(tier, 150, 1500))),
+                          ("tiny-powers", common.tiny_powers(rng, common.sizes(tier, 120, 1200)))):
         for e, pt in pairs:
             c = common.make_eval_case(origin, e, pt)
             vs = common.names_of(e)
